@@ -131,3 +131,12 @@ Proof.
   rewrite A, B, !map_map.
   apply map_ext. intros p. rewrite !shows_outcome by exact Ht. reflexivity.
 Qed.
+
+Lemma new_session_top_level : top_level (st new_session).
+Proof. exists 0. repeat split. Qed.
+
+(* sessions started from a new state: outcome kinds do not depend on registers being enabled *)
+Lemma skeleton_sessions_lemma : forall (p : list skel) (any : bool), any = false ->
+  map fst (fst (run_session (repaired true) p new_session))
+  = map fst (fst (run_session (repaired false) p new_session)).
+Proof. intros p _ _. apply session_outcomes_reg_independent. exact new_session_top_level. Qed.
